@@ -1,6 +1,6 @@
 """C13 — minimal recomputation.  K1 execution-trace projection (which bodies execute, per op) + identity /
 call-count oracles on the real classes for the independence relation stated in the property."""
-import k1, realfuzz, copy, warnings
+import k1, k2, realfuzz, copy, warnings
 from common import *
 import numpy as np
 
@@ -162,7 +162,12 @@ def run(ctx):
                 continue
             seen.add(x["key"])
             out["violations"].append({"key": x["key"], "what": x["what"], "replay": {"kind": "c13-real", "cls": cn, "key": x["key"], "tree": tree_hash()}})
+    k2res = k2.run_k2(quick)
+    if k2res["bad_edges"] or k2res["bad_index"]:
+        out["broken"].append({"kind": "correspondence", "what": "K2: real dependency index / observed reads outside the generated static cone",
+                              "detail": (k2res["bad_edges"] + k2res["bad_index"])[:5]})
     out["coverage"] = {
+        "k2": {k: v for k, v in k2res.items() if k not in ("bad_edges", "bad_index")},
         "evaluations": stats["ops"] + sum(tot.values()), "traces_validated_against_impl": stats["cases"],
         "programs": stats["cases"], "disagreements_checked": stats["cases"],
         "distinct_nontrivial": tot["pairs"] + tot["equal_sets"],
